@@ -38,6 +38,8 @@ pub struct Profile {
     /// a burst of this many autocommit reads somewhere in the history: each logs BEGIN/COMMIT/END,
     /// so the log grows past its first 40 KiB block without growing the tables
     pub read_burst: u32,
+    /// reuse the names of dropped tables, create unique indexes on existing tables
+    pub ddl_rich: bool,
     pub guards: Vec<String>,
 }
 
@@ -67,6 +69,7 @@ impl Profile {
             text_cols: true,
             big_text: false,
             read_burst: 0,
+            ddl_rich: false,
             guards: default_guards(),
         }
     }
@@ -93,6 +96,8 @@ pub fn default_guards() -> Vec<String> {
         "collision_with_key_of_rolled_back_insert", // U1
         "unique_key_reuse_while_session_open",   // U2
         "arithmetic_update_on_indexed_table",    // D24
+        "session_open_across_vacuum",            // V1
+        "create_index_inside_session",           // X1
         "more_than_18_inserts_per_table",        // D9, D15
         "more_than_3_relations",                 // D15, F3 (tables + indexes)
     ]
@@ -166,7 +171,22 @@ impl Gen {
     }
 
     fn table_def(&mut self) -> Stmt {
-        let name = format!("t{}", self.tables_made);
+        let mut name = format!("t{}", self.tables_made);
+        if self.p.ddl_rich && self.rng.chance(60) {
+            // a dropped (or never committed) name can be reused
+            let probe = self.model.begin();
+            let free: Vec<String> = self
+                .model
+                .tables
+                .iter()
+                .map(|t| t.name.clone())
+                .filter(|n| self.model.find_table(probe, n).is_none() && !self.model.name_in_use_by_other(probe, n))
+                .collect();
+            self.model.abort(probe);
+            if !free.is_empty() {
+                name = self.rng.pick(&free).clone();
+            }
+        }
         self.tables_made += 1;
         let mut cols = vec![ColDef { name: "id".into(), ty: Ty::BigInt, not_null: false, default: None }];
         let with_k = self.p.constraints || self.rng.chance(40);
@@ -599,7 +619,9 @@ impl Gen {
             Event::Commit(k) => {
                 let tx = self.sess.remove(k).unwrap();
                 self.sess_deleted.remove(k);
-                if self.model.commit_must_fail(tx) {
+                if self.model.txs[tx].status == TxStatus::Aborted {
+                    // aborted by VACUUM: stays aborted whatever the engine answers
+                } else if self.model.commit_must_fail(tx) {
                     self.model.abort(tx);
                 } else {
                     self.model.commit(tx);
@@ -612,10 +634,21 @@ impl Gen {
                 }
                 self.model.abort(tx);
             }
-            Event::Vacuum | Event::Reopen(_) => {
+            Event::Reopen(_) => {
                 let ks: Vec<u32> = self.sess.keys().copied().collect();
                 for k in ks {
                     let tx = self.sess.remove(&k).unwrap();
+                    if let Some(ts) = self.sess_deleted.remove(&k) {
+                        self.delete_rolled_back.extend(ts);
+                    }
+                    self.model.abort(tx);
+                }
+            }
+            Event::Vacuum => {
+                // VACUUM aborts every open transaction; the session handles live on
+                let ks: Vec<u32> = self.sess.keys().copied().collect();
+                for k in ks {
+                    let tx = self.sess[&k];
                     if let Some(ts) = self.sess_deleted.remove(&k) {
                         self.delete_rolled_back.extend(ts);
                     }
@@ -778,6 +811,13 @@ impl Gen {
                 if self.p.has("vacuum_after_rolled_back_delete") && (!self.delete_rolled_back.is_empty() || !self.sess_deleted.is_empty()) {
                     continue;
                 }
+                if self.p.has("session_open_across_vacuum") {
+                    // V1: whatever a session does after VACUUM aborted it is visible at once
+                    let open: Vec<u32> = self.sess.keys().copied().collect();
+                    for k in open {
+                        self.end_session(k);
+                    }
+                }
                 self.emit(Event::Check);
                 self.vacuumed = true;
                 self.emit(Event::Vacuum);
@@ -811,6 +851,38 @@ impl Gen {
                             if self.p.has("uncheckpointed_create_with_open_txn") {
                                 self.emit(Event::Flush);
                             }
+                        }
+                    }
+                } else if self.p.ddl_rich && rel_ok && !ts.is_empty() && self.rng.chance(35) {
+                    // CREATE UNIQUE INDEX on a column of an existing table
+                    let ti = *self.rng.pick(&ts);
+                    let t = self.model.tables[ti].clone();
+                    let c = self.rng.pick(&t.cols).clone();
+                    if self.p.has("create_index_inside_session") && !self.sess.is_empty() {
+                        continue; // X1
+                    }
+                    if self.p.has("null_in_unique_column") {
+                        // X2: a NULL already stored in the column makes the index build fail
+                        let ci = t.col(&c.name).unwrap();
+                        let probe = self.model.begin();
+                        let has_null = self.model.visible_rows(probe, ti).iter().any(|(_, v)| v[ci].is_null());
+                        self.model.abort(probe);
+                        if has_null {
+                            continue;
+                        }
+                    }
+                    let s = Stmt::CreateIndex { name: format!("ix{}", self.next_val), table: t.name.clone(), cols: vec![c.name.clone()] };
+                    self.next_val += 1;
+                    let tx = match in_sess { Some(k) => self.sess[&k], None => self.model.begin() };
+                    let exp = self.model.run(tx, &s, false);
+                    if in_sess.is_none() {
+                        self.model.abort(tx);
+                    }
+                    if matches!(exp, Expect::Ddl) {
+                        self.relations_made += 1;
+                        match in_sess {
+                            Some(k) => self.emit(Event::Exec(k, s)),
+                            None => self.emit(Event::Auto(s)),
                         }
                     }
                 } else if ts.len() > 1 && self.rng.chance(50) && !self.p.has("drop_table_before_crash") {
